@@ -35,51 +35,6 @@ Proof.
   rewrite H. reflexivity.
 Qed.
 
-(** ** Builder edges are never of kind Data *)
-
-Definition no_data (es : list edge) : Prop := forall e, In e es -> ekind e <> Data.
-
-Lemma set_kind_no_data es a b k : k <> Data -> no_data es -> no_data (set_kind es a b k).
-Proof.
-  intros Hk. induction es as [|e es IH]; intros Hn; simpl; [exact Hn|].
-  destruct ((esrc e =? a) && (edst e =? b)).
-  - intros e' [<-|He']; [exact Hk | apply Hn; right; exact He'].
-  - intros e' [<-|He']; [apply Hn; left; reflexivity|]. apply IH; [|exact He']. intros x Hx. apply Hn. right. exact Hx.
-Qed.
-
-Lemma apply_edge_no_data g a b k : k <> Data -> no_data (edges g) -> no_data (edges (fst (apply_edge g a b k))).
-Proof.
-  intros Hk Hn. unfold apply_edge, update_edge, add_edge.
-  destruct (has_edge (edges g) a b); simpl; [apply set_kind_no_data; assumption|].
-  destruct ((a <? ncount g) && (b <? ncount g)); simpl; [|exact Hn].
-  destruct (must_check (edges g) a b && reach (ncount g) (edges g) b a); simpl; [exact Hn|].
-  intros e He. apply in_app_or in He. destruct He as [He|[<-|[]]]; [apply Hn; exact He | exact Hk].
-Qed.
-
-Lemma apply_batch_no_data l : forall g k, k <> Data -> no_data (edges g) -> no_data (edges (fst (apply_batch g l k))).
-Proof.
-  induction l as [|[a b] l IH]; intros g k Hk Hn; simpl; [exact Hn|].
-  pose proof (apply_edge_no_data g a b k Hk Hn) as H. destruct (apply_edge g a b k) as [g' r]. simpl in H.
-  destruct r; simpl; try exact H. apply IH; assumption.
-Qed.
-
-Lemma run_ops_no_data ops : forall g, no_data (edges g) -> no_data (edges (fst (run_ops g ops))).
-Proof.
-  induction ops as [|o ops IH]; intros g Hn; simpl; [exact Hn|].
-  assert (H : no_data (edges (fst (apply_op g o)))).
-  { destruct o as [f|a b|a b|l|l]; simpl.
-    - exact Hn.
-    - pose proof (apply_edge_no_data g a b Logic ltac:(discriminate) Hn). destruct (apply_edge g a b Logic); assumption.
-    - pose proof (apply_edge_no_data g a b Contains ltac:(discriminate) Hn). destruct (apply_edge g a b Contains); assumption.
-    - pose proof (apply_batch_no_data l g Logic ltac:(discriminate) Hn). destruct (apply_batch g l Logic); assumption.
-    - pose proof (apply_batch_no_data l g Contains ltac:(discriminate) Hn). destruct (apply_batch g l Contains); assumption. }
-  destruct (apply_op g o) as [g' r]. simpl in H. destruct (is_rpanic r); simpl; [exact H|].
-  specialize (IH g' H). destruct (run_ops g' ops). exact IH.
-Qed.
-
-Theorem builder_no_data ops : no_data (edges (builder_run ops)).
-Proof. unfold builder_run. apply run_ops_no_data. intros e []. Qed.
-
 (** ** `impl PartialEq for FnGraph` decides equality of nodes and raw edges *)
 
 Lemma zip_all_eq {A} (f : A -> A -> bool) (l1 l2 : list A) :
